@@ -228,7 +228,8 @@ def publication_gap(ck, hb, ref, work, job, ctx):
     B.rmtree(rcache)
     # a rename that follows another rename in the same directory with nothing but stat/close in between is the
     # LAST rename of a multi-file stage: (ordinal, its target base, directory, base published just before it)
-    rn, n, prev = [], 0, None
+    rn, n, prev, fds = [], 0, None, set()
+    croot = os.path.realpath(rcache)
     for (pid, ts, name, args, ret, raw) in recs:
         if name == "rename":
             n += 1
@@ -238,7 +239,19 @@ def publication_gap(ck, hb, ref, work, job, ctx):
             if prev is not None and prev[0] == d:
                 rn.append((n, os.path.basename(b), d, prev[1]))
             prev = (d, os.path.basename(b))
-        elif name not in ("newfstatat", "close", "stat"):
+        elif name == "openat" and len(args) > 2:
+            pth = re.sub(r"/+", "/", (B.str_arg(args[1]) or b"").decode(errors="replace"))
+            if pth.startswith(croot) and "O_CREAT" in args[2]:
+                prev = None
+                if ret is not None and ret >= 0:
+                    fds.add(ret)
+        elif name == "write":
+            if args and args[0].isdigit() and int(args[0]) in fds:
+                prev = None
+        elif name == "close":
+            if args and args[0].isdigit():
+                fds.discard(int(args[0]))
+        elif name == "mkdir":
             prev = None
     ck.cov["counters"]["publication_gaps"] = len(rn)
     if not rn:
